@@ -405,6 +405,36 @@ def dyadic(rng, lo, hi, bits=20):
 # the context handed to a property module
 # ---------------------------------------------------------------------------------------
 
+def ast_fingerprint(path):
+    """hash of the AST of a source file (comments, docstrings and formatting do not count)"""
+    import ast
+    try:
+        tree = ast.parse(open(path).read())
+    except Exception:
+        return "unparsable"
+    for node in ast.walk(tree):
+        if isinstance(node, (ast.FunctionDef, ast.ClassDef, ast.Module, ast.AsyncFunctionDef)):
+            b = node.body
+            if b and isinstance(b[0], ast.Expr) and isinstance(getattr(b[0], "value", None), ast.Constant) \
+                    and isinstance(b[0].value.value, str):
+                node.body = b[1:] or [ast.Pass()]
+    return hashlib.sha256(ast.dump(tree).encode()).hexdigest()[:20]
+
+
+def changed_anchor_files(anchors):
+    """anchored source files whose AST differs from the one the model was last validated against
+    (harness/fingerprints.json, regenerated with harness/fingerprint.py after every accepted change of /repo)"""
+    fp = os.path.join(VERIF, "harness", "fingerprints.json")
+    known = json.load(open(fp)) if os.path.exists(fp) else {}
+    out = []
+    for rel in anchors:
+        p = os.path.join(REPO, rel)
+        cur = ast_fingerprint(p) if os.path.exists(p) else "missing"
+        if known.get(rel) != cur:
+            out.append(rel)
+    return out
+
+
 class Ctx:
     def __init__(self, pid, tier, seed):
         self.pid = pid
@@ -424,13 +454,21 @@ class Ctx:
         self.proof_broken = None   # text when a proof obligation / build failed
         self.exe = None
         self.driver_pid = pid      # a property may reuse another property's extracted driver
+        self.boost = 1             # >1 when an anchored source file changed: the quick tier digs deeper
 
     # -- bookkeeping
     def quick(self):
         return self.tier == "quick"
 
     def n(self, quick, thorough):
-        return quick if self.tier == "quick" else thorough
+        """case count for this tier.  When an anchored source file differs from the fingerprint the
+        model was validated against, the quick tier explores `boost` times more (never more than
+        thorough): a changed function is exactly where a disagreement is to be searched for."""
+        if self.tier != "quick":
+            return thorough
+        if self.boost > 1 and isinstance(quick, int) and isinstance(thorough, int) and thorough > quick:
+            return min(thorough, quick * self.boost)
+        return quick
 
     def count(self, key, nontrivial=True):
         self.evaluations += 1
